@@ -248,10 +248,10 @@ class RF24:
         if len(address) > 5:
             raise ValueError("address length cannot exceed 5")
         if pipe_number < 2:
-            if not pipe_number:
-                self._pipe0_read_addr = address
             for i, val in enumerate(address):
                 self._pipes[pipe_number][i] = val  # type: ignore[assignment, index]
+            if not pipe_number:  # remember all 5 bytes; a short address keeps the upper ones
+                self._pipe0_read_addr = bytes(self._pipes[0])  # type: ignore[arg-type]
             self._reg_write_bytes(RX_ADDR_P0 + pipe_number, address)
         else:
             self._pipes[pipe_number] = address[0]
